@@ -508,9 +508,12 @@ structure Good0 (cap : Cap) (L R : Bool) (p : Pool) : Prop where
   wk : WakeOK p
   /-- the fixed-size variant (`R = true`): `pool_size` was never assigned -/
   rz : R = true → p.resized = false
-  /-- the strict variant (`L = false`): no task has been lost and no `gather_and_close` call was ever made -/
+  /-- the strict variant (`L = false`): no task has been lost; and, when assignments to `pool_size` are allowed
+  (`R = false`), no `gather_and_close` call was ever made. (`L = false`, `R = true` is the variant for pools that nobody
+  unlocks, `Inv/Seal.lean`: there `gather_and_close` is allowed, and the step that runs its closing stage gets what it
+  needs from `SealOK.g2`.) -/
   ll : L = false → p.lost = false
-  al : L = false → ∀ A ∈ p.apis, A.kind.isGac = false
+  al : L = false → R = false → ∀ A ∈ p.apis, A.kind.isGac = false
 
 structure Good (cap : Cap) (L R : Bool) (p : Pool) : Prop extends Good0 cap L R p where
   map : MapOK p
@@ -866,7 +869,7 @@ theorem Tame.acc {p q : Pool} (h : Tame p q) (ha : AccOK p) : AccOK q := by
 /-- the two extra clauses of the strict variant, as a bundle -/
 structure Strict (L R : Bool) (p : Pool) : Prop where
   ll : L = false → p.lost = false
-  al : L = false → ∀ A ∈ p.apis, A.kind.isGac = false
+  al : L = false → R = false → ∀ A ∈ p.apis, A.kind.isGac = false
   rz : R = true → p.resized = false
 
 theorem Good0.strict {cap : Cap} {L R : Bool} {p : Pool} (hg : Good0 cap L R p) : Strict L R p := ⟨hg.ll, hg.al, hg.rz⟩
@@ -874,17 +877,17 @@ theorem Good.strict {cap : Cap} {L R : Bool} {p : Pool} (hg : Good cap L R p) : 
 
 theorem Strict.of_eq {L R : Bool} {p q : Pool} (h : Strict L R p) (h1 : q.lost = p.lost) (h2 : q.apis = p.apis)
     (h3 : q.resized = p.resized := by rfl) : Strict L R q :=
-  ⟨fun hl => by rw [h1]; exact h.ll hl, fun hl => by rw [h2]; exact h.al hl, fun hr => by rw [h3]; exact h.rz hr⟩
+  ⟨fun hl => by rw [h1]; exact h.ll hl, fun hl hr => by rw [h2]; exact h.al hl hr, fun hr => by rw [h3]; exact h.rz hr⟩
 
 theorem Tame0.good0 {cap : Cap} {L R : Bool} {p q : Pool} (h : Tame0 p q) (hg : Good0 cap L R p) : Good0 cap L R q :=
   ⟨h.slot hg.slot, h.phase hg.phase, h.reg hg.reg, h.grp hg.grp, h.life hg.life, h.fok hg.fl, h.wok hg.wk,
     fun hr => by rw [h.rsz]; exact hg.rz hr,
     fun hl => by rw [h.lost]; exact hg.ll hl,
-    fun hl A hA => by
+    fun hl hr A hA => by
       have hk : A.kind ∈ q.apis.map (·.kind) := List.mem_map.mpr ⟨A, hA, rfl⟩
       rw [h.apk] at hk
       obtain ⟨B, hB, e⟩ := List.mem_map.mp hk
-      rw [← e]; exact hg.al hl B hB⟩
+      rw [← e]; exact hg.al hl hr B hB⟩
 
 theorem Tame.good {cap : Cap} {L R : Bool} {p q : Pool} (h : Tame p q) (hg : Good cap L R p) : Good cap L R q :=
   ⟨h.toTame0.good0 hg.toGood0, h.map hg.map, h.acc hg.acc, h.cok _ hg.canc⟩
